@@ -1407,13 +1407,13 @@ func (n *vwNode) runCase(b *vwBeh, seed int64, onlyFrames int) (vwObs, []vwProbl
 			}
 			switch {
 			case react == "skipped":
-				cls := vwKey(st)
+				cls := st.Typ
 				if vwIsUnknown(st.Typ) {
 					cls = "unknown-type"
 				}
 				bad("skipped:"+cls, "frame %d (%s) was neither answered nor did it end the connection: %s", i, vwKey(st), detail)
 			case react == "garbled":
-				bad("reply-malformed:"+st.Typ+":"+st.Pay, "frame %d (%s): %s", i, vwKey(st), detail)
+				bad("reply-malformed:"+st.Typ, "frame %d (%s): %s", i, vwKey(st), detail)
 				closed = true
 			case vwIn(react, st.Allowed):
 				if react == "ok" && len(f.wantLog) > 0 && !vwSubsequence(f.wantLog, obs.Calls) {
